@@ -53,10 +53,17 @@ def main():
         ok &= rc_b != 0 and "test result: FAILED" in out_b
         sh("git checkout -- . && git clean -fdq -e target")
         rc, out = sh(f"git apply {d}/patch.diff")
-        rc_c1, out_c1 = sh("cargo build --offline")
-        rc_c2, out_c2 = sh("cargo test --offline -p polytune --lib")
-        rc_c3, out_c3 = sh("cargo test --offline -p polytune --test protocol -- --skip eval_mixed_circuits --skip eval_garble_prg_3pc")
-        ran.append(f"(c) clean+patch: cargo build -> {rc_c1}; --lib -> exit {rc_c2}; {summary(out_c2)}; --test protocol -> exit {rc_c3}; {summary(out_c3)}")
+        if "crates/polytune-server-core" in open(os.path.join(d, "patch.diff")).read():
+            # server-core seeds: its own suite (state::tests::basic_test + doctests)
+            rc_c1, out_c1 = sh("cargo build --offline -p polytune-server-core")
+            rc_c2, out_c2 = sh("cargo test --offline -p polytune-server-core")
+            rc_c3, out_c3 = 0, ""
+            ran.append(f"(c) clean+patch: cargo build -p polytune-server-core -> {rc_c1}; cargo test -p polytune-server-core -> exit {rc_c2}; {summary(out_c2)}")
+        else:
+            rc_c1, out_c1 = sh("cargo build --offline")
+            rc_c2, out_c2 = sh("cargo test --offline -p polytune --lib")
+            rc_c3, out_c3 = sh("cargo test --offline -p polytune --test protocol -- --skip eval_mixed_circuits --skip eval_garble_prg_3pc")
+            ran.append(f"(c) clean+patch: cargo build -> {rc_c1}; --lib -> exit {rc_c2}; {summary(out_c2)}; --test protocol -> exit {rc_c3}; {summary(out_c3)}")
         ok &= rc_c1 == 0 and rc_c2 == 0 and rc_c3 == 0
         meta = {
             "property": sid.split("-")[0],
